@@ -163,3 +163,77 @@ Fixpoint write_entries (es : list entry) : outcome bytes werr :=
   end.
 Definition write_to (es : list entry) : outcome bytes werr :=
   if entries_eqb es (sort_entries es) then write_entries es else Panic.
+
+(* ---- tree::Editor restricted to one level --------------------------------------------------
+   Editor::upsert([name], kind, id) / Editor::remove([name]) / Editor::write(out) on a root tree,
+   i.e. upsert_or_remove_at_pathbuf with a single path component (is_last = true, UpsertMode::Normal,
+   so no sub-tree is ever loaded) and write_at_pathbuf with no cached sub-trees:
+     - lookup: binary_search_by(cmp_entry_with_name(e, name, false)), on Err(file_idx) a second
+       search with `true`; both missing: insertion index = dir index if the new kind is a tree,
+       else the file index
+     - hit + upsert: overwrite oid and mode in place; entries.sort() when tree-ness changed
+     - hit + remove: entries.remove(idx);   miss + upsert: entries.insert(idx, new);  miss + remove: nothing
+     - write: entries.retain(|e| !e.oid.is_null()); out(&tree)  (the harness' `out` is Tree::write_to)
+   `kind.into()` is the mode constant of the EntryKind; `kind == EntryKind::Tree` iff is_tree of it. *)
+Inductive edit_op :=
+| Upsert (mode : N) (name : bytes) (oid : bytes)
+| Remove (name : bytes)
+| WriteOut.
+Inductive eerr := EmptyPathComponent.
+
+Definition search2 (es : list entry) (name : bytes) (must_be_tree : bool) : outcome (nat + nat) unit :=
+  r1 <- binary_search_by (fun e => cmp_entry_with_name e name false) es ;;
+  match r1 with
+  | inl i => Ok (inl i)
+  | inr file_idx =>
+      r2 <- binary_search_by (fun e => cmp_entry_with_name e name true) es ;;
+      match r2 with
+      | inl i => Ok (inl i)
+      | inr dir_idx => Ok (inr (if must_be_tree then dir_idx else file_idx))
+      end
+  end.
+
+Definition lift_e {A} (o : outcome A unit) : outcome A eerr :=
+  match o with Ok a => Ok a | Err _ => Panic | Panic => Panic | OutOfFuel => OutOfFuel end.
+
+Definition is_empty (n : bytes) : bool := match n with [] => true | _ => false end.
+Definition is_null_oid (o : bytes) : bool := forallb (fun b => beqb b x00) o.
+
+(* state: the root tree's entries.  Result: new state, and what `out` saw if this was a write *)
+Definition edit_step (es : list entry) (op : edit_op)
+  : outcome (list entry * option (outcome bytes werr)) eerr :=
+  match op with
+  | Upsert mode name oid =>
+      if is_empty name then Err EmptyPathComponent
+      else
+        let must := is_tree mode in
+        r <- lift_e (search2 es name must) ;;
+        match r with
+        | inl idx =>
+            match nth_error es idx with
+            | None => Panic                                    (* cursor.entries[idx] *)
+            | Some e =>
+                let needs_sorting := negb (Bool.eqb (is_tree (e_mode e)) must) in
+                let es' := firstn idx es ++ mkEntry mode (e_name e) oid :: skipn (S idx) es in
+                Ok (if needs_sorting then sort_entries es' else es', None)
+            end
+        | inr idx =>
+            if Nat.leb idx (length es)                         (* Vec::insert panics beyond len *)
+            then Ok (firstn idx es ++ mkEntry mode name oid :: skipn idx es, None)
+            else Panic
+        end
+  | Remove name =>
+      if is_empty name then Err EmptyPathComponent
+      else
+        r <- lift_e (search2 es name false) ;;
+        match r with
+        | inl idx =>
+            if Nat.ltb idx (length es)                         (* Vec::remove panics at len *)
+            then Ok (firstn idx es ++ skipn (S idx) es, None)
+            else Panic
+        | inr _ => Ok (es, None)
+        end
+  | WriteOut =>
+      let kept := filter (fun e => negb (is_null_oid (e_oid e))) es in
+      Ok (kept, Some (write_to kept))
+  end.
